@@ -113,10 +113,8 @@ fn expect(c: &Case) -> Expect {
             let close = |x: f64, y: f64| (x - y).abs() <= 1e-9 * x.abs().max(y.abs()) || x == y;
             if c.f == "clamp" {
                 let (lo, x, hi) = (base[0], base[1], base[2]);
-                if lo > hi && !close(lo, hi) {
-                    return Expect::NotJudged;
-                }
-                let r = if x < lo { lo } else if x > hi { hi } else { x };
+                // (with min > max: max(min, min(x, max)) = min, as CSS defines clamp and as math.clamp is specified)
+                let r = lo.max(x.min(hi));
                 return Expect::OneOf((0..3).filter(|i| close(base[*i], r)).collect());
             }
             let best = if c.f == "min" { base.iter().cloned().fold(f64::INFINITY, f64::min) } else { base.iter().cloned().fold(f64::NEG_INFINITY, f64::max) };
@@ -308,10 +306,10 @@ impl Prop for C29 {
         C29
     }
     fn rule(&self) -> String {
-        "exhaustive grid of 21 boundary values (0, -0, +-0.5, +-1, +-1.5, +-2, +-2.5, 3, 10, +-infinity, NaN, +-1e300, 1e-300, 0.9999999999) through every unary function and every pair through pow/log/atan2/div/hypot/min/max; random calls of math.abs/ceil/floor/round/percentage/div/min/max/clamp/pow/sqrt/log/exp/sin/cos/tan/asin/acos/atan/atan2/hypot with random decimals, ties (+-0.5, +-1.5, +-2.5), 0, -0, values next to 1, 1e+-300, +-infinity and NaN, carrying no unit, the proper unit class (lengths px in pt cm, angles deg grad rad turn), convertible units, and improper or incompatible units. Oracle: f64 reference (round half away from zero; trig in radians after converting the angle; inverse trig in deg), compared at tolerance max(1e-9 relative, 2e-10 absolute) on the value printed by inspect() at precision 10; abs/ceil/floor/round/hypot keep the unit; min/max/clamp must return one of their arguments (the reference one after conversion, ties accepted); unit-carrying input to pow/sqrt/log/exp, non-angles to trig and incompatible units are errors. Non-trivial: an argument with a unit, a tie, or a non-finite value; distinct by call".into()
+        "exhaustive grid of 21 boundary values (0, -0, +-0.5, +-1, +-1.5, +-2, +-2.5, 3, 10, +-infinity, NaN, +-1e300, 1e-300, 0.9999999999) through every unary function and every pair through pow/log/atan2/div/hypot/min/max; random calls of math.abs/ceil/floor/round/percentage/div/min/max/clamp/pow/sqrt/log/exp/sin/cos/tan/asin/acos/atan/atan2/hypot with random decimals, ties (+-0.5, +-1.5, +-2.5), 0, -0, values next to 1, 1e+-300, +-infinity and NaN, carrying no unit, the proper unit class (lengths px in pt cm, angles deg grad rad turn), convertible units, and improper or incompatible units. Oracle: f64 reference (round half away from zero; trig in radians after converting the angle; inverse trig in deg), compared at tolerance max(1e-9 relative, 2e-10 absolute) on the value printed by inspect() at precision 10; abs/ceil/floor/round/hypot keep the unit; min/max/clamp must return one of their arguments (the reference one after conversion, ties accepted; clamp with min > max gives min), and the global CSS-aware min()/max()/clamp() on the same numbers must pick the same argument; unit-carrying input to pow/sqrt/log/exp, non-angles to trig and incompatible units are errors. Non-trivial: an argument with a unit, a tie, or a non-finite value; distinct by call".into()
     }
     fn assumptions(&self) -> Vec<String> {
-        vec!["not judged: min/max/hypot/atan2 mixing unitless and unit numbers, clamp with min > max, trig of |angle| > 1e6 rad and tan within 1e-6 of a pole, NaN among min/max/clamp arguments".into()]
+        vec!["not judged: min/max/hypot/atan2 mixing unitless and unit numbers, trig of |angle| > 1e6 rad and tan within 1e-6 of a pole, NaN among min/max/clamp arguments".into()]
     }
     fn phases(&self, tier: Tier) -> Vec<Phase<Case>> {
         vec![Phase::enumerate("boundary-grid", grid().into_iter()), Phase::random("calls", cases(), tier.pick(40_000, 2_000_000))]
@@ -356,6 +354,19 @@ impl Prop for C29 {
             (Expect::OneOf(ix), Ok(v)) => {
                 let hit: Vec<usize> = (0..c.args.len()).filter(|i| v.get(i + 1).and_then(|x| x.as_deref()) == Some("true")).collect();
                 if hit.iter().any(|i| ix.contains(i)) {
+                    // the global, CSS-aware clamp()/min()/max() on the same (compatible, plain) numbers must pick the same argument
+                    let g = format!("{}({})", c.f, c.args.iter().map(src).collect::<Vec<_>>().join(", "));
+                    let gp: Vec<String> = c.args.iter().map(|a| format!("{g} == {}", src(a))).collect();
+                    match rs::probes(&gp) {
+                        Err(Res::Panic(m)) => return Verdict::fail(format!("{g}: panic {m}")),
+                        Err(e) => return Verdict::fail(format!("{g} fails where {call} works: {}", e.brief().chars().take(150).collect::<String>())),
+                        Ok(gv) => {
+                            let ghit: Vec<usize> = (0..c.args.len()).filter(|i| gv.get(*i).and_then(|x| x.as_deref()) == Some("true")).collect();
+                            if !ghit.iter().any(|i| ix.contains(i)) {
+                                return Verdict::fail(format!("global {g} equals arguments {ghit:?}, the reference allows {ix:?} (and {call} equals {hit:?})"));
+                            }
+                        }
+                    }
                     Verdict::pass(nontrivial).class(c.f.clone())
                 } else {
                     Verdict::fail(format!("{call} printed {:?}; it equals arguments {hit:?}, the reference allows {ix:?}", v[0]))
